@@ -611,9 +611,23 @@ class Fillomino(Base):
                 out.append({"tag": "%dx%d/r%d" % (h, w, k), "h": h, "w": w, "problem": [[0 if v is None else v for v in row] for row in p]})
         for (h, w, tag, p) in single_clue_layouts([(1, 3), (3, 1), (2, 2)] if tier == "quick" else [(1, 3), (3, 1), (2, 2), (2, 3), (3, 2)], [1, 2, 3, 4], 0, 0, 0):
             out.append({"tag": "%dx%d/%s" % (h, w, tag), "h": h, "w": w, "problem": p})
+        for (h, w) in [(2, 3), (3, 2)]:
+            out.append({"tag": "%dx%d/none-wide" % (h, w), "h": h, "w": w, "problem": [[0] * w for _ in range(h)]})
+            p = [[0] * w for _ in range(h)]
+            p[0][0] = 3
+            out.append({"tag": "%dx%d/corner3-r0" % (h, w), "h": h, "w": w, "problem": p})
+        # the checkered variant (regions 2-colourable so that regions sharing a border differ): clue-free and sampled layouts
+        for d in list(out):
+            if d["h"] * d["w"] <= (6 if tier == "quick" else 8) and ("none" in d["tag"] or d["tag"].endswith(("r0", "r1", "r2"))):
+                e = dict(d)
+                e["checkered"] = True
+                e["tag"] = d["tag"] + "/checkered"
+                out.append(e)
         return out
 
     def call(self, mod, d):
+        if d.get("checkered"):
+            return mod.solve_fillomino(d["h"], d["w"], d["problem"], checkered=True)
         return mod.solve_fillomino(d["h"], d["w"], d["problem"])
 
     def rule(self, d, ret, env):
@@ -627,6 +641,14 @@ class Fillomino(Base):
             for x in range(w):
                 if d["problem"][y][x] >= 1:
                     cs.append(sz(y, x) == d["problem"][y][x])
+        if d.get("checkered"):
+            # some 2-colouring of the cells changes colour exactly across region borders (cell 0 white w.l.o.g.): written out as a
+            # disjunction over all colourings, so the specification stays quantifier- and auxiliary-free
+            alts = []
+            for m in range(1 << (n - 1)):
+                col = [False] + [bool((m >> k) & 1) for k in range(n - 1)]
+                alts.append(And([(v[a] != v[b]) if col[a] != col[b] else (v[a] == v[b]) for (a, b) in es]))
+            cs.append(Or(alts))
         return And(cs)
 
 
@@ -1390,6 +1412,16 @@ def sample_solution(sp, d, rng, tries=6):
                 vals.append(bool(z3.is_true(mv)) if isinstance(v, _BV) else mv.as_long())
             return ret, xv, vals
     return None
+
+
+def shape_key(d):
+    """board size of an instance description (instances of equal shape can serve as each other's history)"""
+    return (d.get("h"), d.get("w"), d.get("n"))
+
+
+def content_key(d):
+    import json as _json
+    return _json.dumps({k: v for k, v in d.items() if k not in ("tag", "name", "puzzle", "prior")}, sort_keys=True, default=str)
 
 
 def derive_instances(sp, rng, tier):
